@@ -161,6 +161,7 @@ package grpc
 //@   loop 0 invariant true
 //@   loop 1 invariant -1 <= rangeindex && rangeindex < len(headers) && *a.enabled > 0 && (forall i int :: 0 <= i && i <= rangeindex && i < len(headers) && headers[i].Name == "grpc-encoding" &&
 //@        (forall j int :: i < j && j <= rangeindex ==> headers[j].Name != "grpc-encoding") ==> a.encoding == encOf(headers[i].Value))
+//@   at call 0 of StoreInt32 before assert[a-stream-is-treated-as-grpc-only-for-the-exact-grpc-content-type] h.Name == "content-type" && h.Value == "application/grpc" && arg0 == a.enabled
 //@   at call 0 of Header before assert[non-grpc-headers-go-to-the-sink-unchanged] *a.enabled <= 0 && arg0 == headers && arg1 == streamEnded && arg2 == priority
 //@   at call 1 of Header before assert[the-grpc-encoding-header-of-a-grpc-stream-selects-the-codec] *a.enabled > 0 && arg0 == headers && (forall i int :: 0 <= i && i < len(headers) && headers[i].Name == "grpc-encoding" &&
 //@        (forall j int :: i < j && j < len(headers) ==> headers[j].Name != "grpc-encoding") ==> a.encoding == encOf(headers[i].Value))
